@@ -57,7 +57,8 @@ func main() {
 	em := &chainsim.ElectionMonitor{Rep: rep}
 	km := &chainsim.KeyManagerMonitor{Rep: rep}
 	regm := &chainsim.RegistryMonitor{Rep: rep}
-	h, err := chainsim.NewHistory(cfg, em, cm, rm, km, regm)
+	vm := &chainsim.VRFMonitor{Rep: rep, Recompute: true}
+	h, err := chainsim.NewHistory(cfg, em, cm, rm, km, regm, vm)
 	if err != nil {
 		fmt.Println("ERR", err)
 		os.Exit(2)
@@ -97,6 +98,18 @@ func main() {
 			fmt.Printf("  RT %-55s %d\n", k, rep.counts[k])
 		}
 		fmt.Printf("  RT plans %v\n", h.Gen.RuntimePlans())
+	}
+	if h.Sc.IsVRF() {
+		vrep := &printRep{counts: map[string]int64{}}
+		chainsim.ReportVRF(h, vrep)
+		var cs []string
+		for k := range vrep.counts {
+			cs = append(cs, k)
+		}
+		sort.Strings(cs)
+		for _, k := range cs {
+			fmt.Printf("  VRF %-60s %d\n", k, vrep.counts[k])
+		}
 	}
 	if h.Sc.KM != nil {
 		krep := &printRep{counts: map[string]int64{}}
